@@ -206,6 +206,7 @@ func checkC02(e *Env) {
 	}
 
 	// (d) header maps
+	headerEntriesComplete(e, "AGREE")
 	// (f) the verifier's payload step refuses what MiEncodePayload produced on no ground other than the listed ones
 	vp := e.fn("signedexchange.verifyPayload")
 	rejectionsListed(e, "REJECT", vp, gate.Outcome{Kind: gate.ErrNil, Idx: 1}, noCfg, verifyGatesC01(), "digest header present, decoder constructed, whole payload read")
